@@ -59,6 +59,11 @@ func SortReader(ctx context.Context, spillTarget int, typ slicetype.Type, r slic
 			break
 		}
 		bytesPerRow := size / n
+		if bytesPerRow < 1 {
+			// Rows may encode to less than a byte each on average (e.g.,
+			// with a custom codec).
+			bytesPerRow = 1
+		}
 		targetRows := spillTarget / bytesPerRow
 		if targetRows < sliceio.SpillBatchSize {
 			targetRows = sliceio.SpillBatchSize
